@@ -63,7 +63,8 @@ class StoreProbe(object):
         self.s = s
         self.sched = sched
         self.io = s.dev._io_manager
-        self.dropped = []          # (arg0, arg1) of CLSE packets that put() did not keep
+        self.dropped = []          # (arg0, arg1) of CLSE packets that put() did not keep because the pair had no entry (K1)
+        self.dropped_other = []    # CLSE packets lost although the pair had an entry: never forgiven
         self.lock_issues = []
         self.orig = {}
         probe = self
@@ -76,6 +77,12 @@ class StoreProbe(object):
                     lk = probe.io._store_lock
                     if getattr(lk, 'owner', None) is not current_task():
                         probe.lock_issues.append('_AdbPacketStore.%s called by %s without holding the store lock' % (_name, current_task().name))
+                had_entry = None
+                if _name == 'put' and a[2] == b'CLSE' and store is probe.io._packet_store:
+                    try:
+                        had_entry = a[0] in store._dict.get(a[1], {})
+                    except AttributeError:
+                        had_entry = None
                 r = _orig(store, *a)
                 if _name == 'put' and a[2] == b'CLSE' and store is probe.io._packet_store:
                     try:
@@ -84,7 +91,9 @@ class StoreProbe(object):
                     except AttributeError:
                         kept = True
                     if not kept:
-                        probe.dropped.append((a[0], a[1]))
+                        # K1 is exactly: the pair had NO entry in the store (the documented drop of put()).  A CLSE that
+                        # is lost although the pair has an entry is a different defect and is never forgiven.
+                        (probe.dropped if had_entry is False else probe.dropped_other).append((a[0], a[1]))
                 return r
             setattr(self.cls, name, wrap)
 
@@ -126,6 +135,8 @@ def judge(s, ops, results, verdict, dropped, lock_issues, viol):
             viol.append({'msg': 'operation %d %s gave %r, its solo result is %r' % (i, op[0], r if len(repr(r)) < 160 else repr(r)[:160], want if len(repr(want)) < 120 else repr(want)[:120]), 'sig': sig})
     if verdict:
         viol.append({'msg': 'scheduler verdict: %s' % verdict})
+    for pair in getattr(env, 'clse_lost_with_entry', ()):
+        viol.append({'msg': 'the packet store lost the CLSE of stream (remote %d, local %d) although it holds an entry for that stream' % pair})
     for m in lock_issues[:3]:
         viol.append({'msg': 'lock discipline: %s' % m})
     for code, msg in env.issues:
@@ -189,6 +200,7 @@ def run_threads(params, ch):
         results = sc.run()
         s.env.sched = None
         viol = []
+        s.env.clse_lost_with_entry = list(probe.dropped_other)
         k1 = judge(s, ops, results, sc.verdict, probe.dropped, probe.lock_issues, viol)
         if sc.verdict and sc.verdict.startswith('error'):
             raise HarnessError(sc.verdict)
@@ -270,6 +282,7 @@ def run_tasks(params, ch):
         loop._explore_io = False
         s.env.sched = None
         viol = []
+        s.env.clse_lost_with_entry = list(probe.dropped_other)
         k1 = judge(s, ops, results, verdict, probe.dropped, [], viol)
         dev = [c for c in ch.choices if c]
         return {'outcome': (tuple(r if r[0] != 'ok' else 'ok' for r in results), bool(k1), verdict), 'viol': viol, 'states': states, 'trans': loop.steps,
